@@ -60,8 +60,12 @@ def validate(shape, exact):
         ws = rg.witness_points(curves, max_per_seg=3)
     except rg.Degenerate:
         return [("boundary-not-isolated", "pieces of the boundary overlap or touch non-transversally beyond resolution")]
-    if not exact:
-        ws = [w for w in ws if all(a.clear(w, 1e-7 * max(size, 1.0)) for a in atoms)]
+    # stored crossing vertices are rounded (1e9 denominator cap, 1e-9 point
+    # identification): two copies of one crossing may differ by ~1e-18 and
+    # leave slivers of that width; witnesses closer than the library's point
+    # tolerance to a boundary say nothing about the structure
+    margin = (1e-7 if not exact else 1e-9) * max(size, 1.0)
+    ws = [w for w in ws if all(a.clear(w, margin) for a in atoms)]
     # (c) every curve alone is (weakly) simple: winding in {0, sign}
     for ci, a in enumerate(atoms):
         sign = 1 if a.ccw else -1
